@@ -1,11 +1,14 @@
 import AdfObdd.FeatureOps
+import AdfObdd.FeatureNg
+import AdfObdd.FeatureLog
 import AdfObdd.CountsMore
 import AdfObdd.MemoCheckProofs
 /-! # C12 — answers are independent of the cargo feature configuration
 
 Model: `FeatureVariants.lean` carries BOTH bodies of every `cfg(feature = …)` split of
 `obdd.rs`, selected by a value `c : Cfg` (`adhoccounting`, `adhoccountmodels`, `variablelist`;
-`frontend` only sends fresh nodes over a channel and touches no table): `newC`, `nodeC`,
+`frontend`: with a sender attached, `node` appends each fresh node to the write-only log
+`FStore.log`, section (f)): `newC`, `nodeC`,
 `restrictC`, `iteCfg`, `pathsC`, `modelsC`, `maxDepthCfg`, `varDepsC`, `fixImportC`, on a store
 `FStore` = proved `Store` + `deps` (= `var_deps`) + `cnt` (= `count_cache`). The reference is the
 feature-free development: `mkNode`, `restrictF`, `iteF`, `runOps`, `paths`/`pathsF`, `countF`
@@ -15,7 +18,13 @@ Invariant `FInv c z fs`: base store `WF`; with `variablelist` the table `deps` i
 (`DepsOK`); every count entry agrees with the naive tuple in paths and depth, and in the model
 components unless the feature set is the exception (`CntOK`); with `adhoccounting` every handle
 has an entry (`CntFull`); in the exception configuration on a store nothing was imported into
-(`z = true`) every inner node's entry has model components 0 (`CntZero`). -/
+(`z = true`) every inner node's entry has model components 0 (`CntZero`).
+
+Sections: (a)–(d) diagram operations and the four queries; (e) every semantics (grounded,
+complete, stable, counting search a/b, nogood search with every heuristic) over the configured
+store, by a simulation `Rel c z fs s → same vectors, Rel again` (`FeatureSemantics`,
+`FeatureSearch`, `FeatureNg`); (f) the `frontend` channel (`FeatureLog`); (g) path cubes, impacts,
+imported stores (with and without `fix_import`), `models` after `fix_import` + new nodes. -/
 namespace C12
 
 /-! ## (a) `restrict` and `if_then_else`: the `variablelist` shortcut changes neither handle nor node table -/
@@ -277,6 +286,365 @@ example : WF ⟨Store.init.nodes, Store.init.uniq, ∅, ∅⟩ := WF_init
 
 end C12
 
+namespace C12
+
+/-! ## (e) every semantics returns the same answers under every feature set
+
+The semantics under a feature set `c` run on the configured store: `groundedLoop (CfgRA c)`,
+`completeAllG (CfgRA c)`, `stableAllG (CfgRA c)` (the generic routines instantiated with the
+restriction algebra of the configured store: `Bdd::restrict` with the `variablelist` shortcut and
+the ad-hoc tables), `countAllC c` (`stable_count_optimisation_heu_a/b`; heuristics and `paths`
+read the ad-hoc / memoised count cache and the dependency table, and thread the store because a
+query may fill the cache) and `ngSearchC c` (`nogood_internal`, every heuristic). The reference is
+what the driver executes against the real code: `groundedLoop StoreRA`, `completeAll`, `stableAll`,
+`countAll`, `SM.ngSearch`. Hypothesis: `Rel c z fs s` (same node table, invariants of the tables);
+no hypothesis on the vector `ac` is needed (outside the node table both stores return their
+argument). `z` is arbitrary: built by operations or imported + `fix_import`. -/
+
+/-- the executed models are the generic routines on the reference store -/
+theorem reference_is_generic (s : Store) (n : Nat) (ac : List Nat) :
+    completeAllG StoreRA s n ac = completeAll s n ac ∧ stableAllG StoreRA s n ac = stableAll s n ac :=
+  ⟨completeAllG_store s n ac, stableAllG_store s n ac⟩
+
+/-- **C12, semantics**: grounded, complete, stable, the counting search with either heuristic and
+the nogood search with every heuristic return — handle for handle — the vectors of the reference
+model, under every feature set (`frontend` and an attached sender included: `Rel` does not
+mention them) -/
+theorem semantics_feature_independent (c : Cfg) (z : Bool) (fs : FStore) (s : Store) (r : Rel c z fs s)
+    (n : Nat) (ac : List Nat) :
+    (groundedLoop (CfgRA c) (n+1) fs ac).2 = (groundedLoop StoreRA (n+1) s ac).2 ∧
+    (completeAllG (CfgRA c) fs n ac).2 = (completeAll s n ac).2 ∧
+    (stableAllG (CfgRA c) fs n ac).2 = (stableAll s n ac).2 ∧
+    (∀ useA, (countAllC c fs n ac useA).2 = (countAll s n ac useA).2) ∧
+    (∀ heu fuel stable, (ngSearchC c heu fuel fs n ac stable).2 = (SM.ngSearch heu fuel s n ac stable).2) := by
+  have st := Stable.true c
+  have sim := cfg_sim c z _ st
+  have h : RelP c z (fun _ => True) fs s := ⟨r, trivial⟩
+  refine ⟨(groundedLoop_sim sim _ fs s ac h).1, ?_, ?_, ?_, ?_⟩
+  · rw [← completeAllG_store]; exact (completeAllG_sim sim fs s n ac h).1
+  · rw [← stableAllG_store]; exact (stableAllG_sim sim fs s n ac h).1
+  · intro useA; exact (countAllC_sim c z _ st fs s n ac useA h).1
+  · intro heu fuel stable; exact (ngSearchC_sim st heu fuel fs s n ac stable h).1
+
+/-- the stores after each semantics are again related (so queries and further runs agree too) -/
+theorem semantics_keep_rel (c : Cfg) (z : Bool) (fs : FStore) (s : Store) (r : Rel c z fs s)
+    (n : Nat) (ac : List Nat) :
+    Rel c z (groundedLoop (CfgRA c) (n+1) fs ac).1 (groundedLoop StoreRA (n+1) s ac).1 ∧
+    Rel c z (completeAllG (CfgRA c) fs n ac).1 (completeAll s n ac).1 ∧
+    Rel c z (stableAllG (CfgRA c) fs n ac).1 (stableAll s n ac).1 ∧
+    (∀ useA, Rel c z (countAllC c fs n ac useA).1 (countAll s n ac useA).1) ∧
+    (∀ heu fuel stable, Rel c z (ngSearchC c heu fuel fs n ac stable).1 (SM.ngSearch heu fuel s n ac stable).1) := by
+  have st := Stable.true c
+  have sim := cfg_sim c z _ st
+  have h : RelP c z (fun _ => True) fs s := ⟨r, trivial⟩
+  refine ⟨(groundedLoop_sim sim _ fs s ac h).2.1, ?_, ?_, ?_, ?_⟩
+  · rw [← completeAllG_store]; exact (completeAllG_sim sim fs s n ac h).2.1
+  · rw [← stableAllG_store]; exact (stableAllG_sim sim fs s n ac h).2.1
+  · intro useA; exact (countAllC_sim c z _ st fs s n ac useA h).2.1
+  · intro heu fuel stable; exact (ngSearchC_sim st heu fuel fs s n ac stable h).2.1
+
+/-- hence: build the conditions by any valid operation sequence under two feature sets, run any
+semantics on any vector of handles — the answers coincide -/
+theorem semantics_agree (c c' : Cfg) (ops : List Op) (hops : opsValid ops 2) (n : Nat) (ac : List Nat) :
+    let fs := (runOpsC c ops (newC c) [0, 1]).1
+    let fs' := (runOpsC c' ops (newC c') [0, 1]).1
+    (groundedLoop (CfgRA c) (n+1) fs ac).2 = (groundedLoop (CfgRA c') (n+1) fs' ac).2 ∧
+    (completeAllG (CfgRA c) fs n ac).2 = (completeAllG (CfgRA c') fs' n ac).2 ∧
+    (stableAllG (CfgRA c) fs n ac).2 = (stableAllG (CfgRA c') fs' n ac).2 ∧
+    (∀ useA, (countAllC c fs n ac useA).2 = (countAllC c' fs' n ac useA).2) ∧
+    (∀ heu fuel stable, (ngSearchC c heu fuel fs n ac stable).2 = (ngSearchC c' heu fuel fs' n ac stable).2) := by
+  intro fs fs'
+  have ⟨_, r⟩ := run_rel c true ops (newC c) Store.init [0, 1] _ (Rel.new c) HistOK.init hops
+  have ⟨_, r'⟩ := run_rel c' true ops (newC c') Store.init [0, 1] _ (Rel.new c') HistOK.init hops
+  have ⟨a1, a2, a3, a4, a5⟩ := semantics_feature_independent c true fs _ r n ac
+  have ⟨b1, b2, b3, b4, b5⟩ := semantics_feature_independent c' true fs' _ r' n ac
+  exact ⟨a1.trans b1.symm, a2.trans b2.symm, a3.trans b3.symm, fun u => (a4 u).trans (b4 u).symm,
+    fun h f st => (a5 h f st).trans (b5 h f st).symm⟩
+
+/-- every section the command line tool prints (`--grd --com --twoval --stm --stmca --stmcb
+--stmpre --stmrew --stmng`, naive and hybrid arm, every heuristic): `runCliC c` runs the sections
+on the configured store, threading it from section to section as the tool does;
+`stable_with_prefilter` (`stablePreG`) is the one routine not in `semantics_feature_independent` -/
+theorem cli_sections_feature_independent (c : Cfg) (z : Bool) (fs : FStore) (s : Store) (r : Rel c z fs s)
+    (m : Cli.Mode) (f : Cli.Flags) (heu : SM.Heu) (n : Nat) (ac : List Nat) :
+    runCliC c m f heu fs n ac = Cli.run m f heu s n ac :=
+  runCliC_sim (Stable.true c) m f heu fs s n ac (⟨r, trivial⟩ : RelP c z (fun _ => True) fs s)
+
+/-- bonus (C01 under every feature set): the grounded loop on the configured store computes the
+least fixpoint of Γ — the generic theorem applies to `CfgRA c` -/
+theorem grounded_correct_every_config (c : Cfg) (z : Bool) (fs : FStore) (inv : FInv c z fs) (fuel : Nat)
+    (ac : List Nat) (hv : ∀ t ∈ ac, t < fs.base.nodes.size) (hf : ac.length < fuel) :
+    let D := ac.map (eval fs.base)
+    let g := (groundedLoop (CfgRA c) fuel fs ac).2.map storeIsConst
+    Gam D g = g ∧ ∀ w', Gam D w' = w' → Le3 g w' :=
+  grounded_correct (CfgRA c) fuel fs ac ⟨z, inv⟩ hv hf
+
+/-! ## (f) `frontend`: the channel is write-only and carries exactly the created nodes
+
+`FStore.sender` = a `crossbeam_channel::Sender` is attached (`set_sender`), `FStore.log` = the
+arguments of the `send` calls of `Bdd::node`, oldest first. A failed `send` (receiver dropped) is
+only logged by the code, so the calls are what there is to model. -/
+
+/-- attaching a sender does not disturb the relation (no table is touched) -/
+theorem rel_setSender {c : Cfg} {z : Bool} {fs : FStore} {s : Store} (r : Rel c z fs s) : Rel c z fs.setSender s :=
+  r.setSender
+
+/-- the answers of every semantics with a sender attached are those without (both are the
+reference answers), under every feature set -/
+theorem sender_irrelevant (c : Cfg) (z : Bool) (fs : FStore) (s : Store) (r : Rel c z fs s) (n : Nat) (ac : List Nat) :
+    (groundedLoop (CfgRA c) (n+1) fs.setSender ac).2 = (groundedLoop (CfgRA c) (n+1) fs ac).2 ∧
+    (completeAllG (CfgRA c) fs.setSender n ac).2 = (completeAllG (CfgRA c) fs n ac).2 ∧
+    (stableAllG (CfgRA c) fs.setSender n ac).2 = (stableAllG (CfgRA c) fs n ac).2 ∧
+    (∀ useA, (countAllC c fs.setSender n ac useA).2 = (countAllC c fs n ac useA).2) ∧
+    (∀ heu fuel stable, (ngSearchC c heu fuel fs.setSender n ac stable).2 = (ngSearchC c heu fuel fs n ac stable).2) := by
+  have ⟨a1, a2, a3, a4, a5⟩ := semantics_feature_independent c z fs s r n ac
+  have ⟨b1, b2, b3, b4, b5⟩ := semantics_feature_independent c z fs.setSender s r.setSender n ac
+  exact ⟨b1.trans a1.symm, b2.trans a2.symm, b3.trans a3.symm, fun u => (b4 u).trans (a4 u).symm,
+    fun h f st => (b5 h f st).trans (a5 h f st).symm⟩
+
+/-- what the log of a result store is, given the log invariant -/
+theorem log_of_inv {c : Cfg} {fs0 fs : FStore} (h : LogInv c fs0.base.nodes.size fs0.log fs) (hs : fs.sender = true) :
+    fs.log = fs0.log ++ (if c.frontend then StreamF.created fs0.base fs.base else []) := by
+  have := h.2
+  rw [hs, Bool.and_true] at this
+  exact this
+
+/-- **C12, frontend**: attach a sender to a store and run an operation sequence or any semantics.
+Then (1) handles, node table and answers are those of the reference (which has no channel),
+(2) with the feature the log has grown by exactly the nodes created, in creation order,
+(3) without the feature it has not grown. Stated for the operation sequences and the five semantics. -/
+theorem frontend_channel (c : Cfg) (z : Bool) (fs : FStore) (s : Store) (r : Rel c z fs s) (n : Nat) (ac : List Nat) :
+    let grow := fun (fs' : FStore) => fs'.log = fs.log ++ (if c.frontend then StreamF.created fs.base fs'.base else [])
+    (∀ ops hist fns, HistOK s hist fns → opsValid ops hist.length →
+      (runOpsC c ops fs.setSender hist).2 = (runOps ops s hist).2 ∧
+      (runOpsC c ops fs.setSender hist).1.base.nodes = (runOps ops s hist).1.nodes ∧
+      grow (runOpsC c ops fs.setSender hist).1) ∧
+    grow (groundedLoop (CfgRA c) (n+1) fs.setSender ac).1 ∧
+    grow (completeAllG (CfgRA c) fs.setSender n ac).1 ∧
+    grow (stableAllG (CfgRA c) fs.setSender n ac).1 ∧
+    (∀ useA, grow (countAllC c fs.setSender n ac useA).1) ∧
+    (∀ heu fuel stable, grow (ngSearchC c heu fuel fs.setSender n ac stable).1) := by
+  intro grow
+  have st := LogInv.stable c fs.base.nodes.size fs.log
+  have sim := cfg_sim c z _ st
+  have h : RelP c z (LogInv c fs.base.nodes.size fs.log) fs.setSender s := ⟨r.setSender, LogInv.attach c fs⟩
+  -- the sender flag is kept: read it off the invariant is not possible, so carry it as a second predicate
+  have stS : Stable c (fun fs' : FStore => fs'.sender = true) :=
+    ⟨fun fs' v lo hi hs => by
+        unfold nodeC; split
+        · exact hs
+        · split
+          · exact hs
+          · exact hs,
+      fun _ _ _ hs => hs, fun _ _ _ hs => hs, fun _ _ _ hs => hs⟩
+  have st2 := Stable.and st stS
+  have sim2 := cfg_sim c z _ st2
+  have h2 : RelP c z (fun fs' => LogInv c fs.base.nodes.size fs.log fs' ∧ fs'.sender = true) fs.setSender s :=
+    ⟨r.setSender, LogInv.attach c fs, rfl⟩
+  have fin : ∀ fs' : FStore, (LogInv c fs.base.nodes.size fs.log fs' ∧ fs'.sender = true) → grow fs' :=
+    fun fs' hh => log_of_inv hh.1 hh.2
+  refine ⟨?_, ?_, ?_, ?_, ?_, ?_⟩
+  · intro ops hist fns hh hv
+    have ⟨a, b⟩ := run_relP c z st2 ops fs.setSender s hist fns h2 hh hv
+    exact ⟨a, b.1.nodes, fin _ b.2⟩
+  · exact fin _ (groundedLoop_sim sim2 _ _ s ac h2).2.2
+  · exact fin _ (completeAllG_sim sim2 _ s n ac h2).2.2
+  · exact fin _ (stableAllG_sim sim2 _ s n ac h2).2.2
+  · intro useA; exact fin _ (countAllC_sim c z _ st2 _ s n ac useA h2).2.2
+  · intro heu fuel stable; exact fin _ (ngSearchC_sim st2 heu fuel _ s n ac stable h2).2.2
+
+/-- no sender (the state after `Bdd::new`) or feature off: no routine appends to the log -/
+theorem no_sender_no_log (c : Cfg) (z : Bool) (fs : FStore) (s : Store) (r : Rel c z fs s)
+    (hoff : (c.frontend && fs.sender) = false) (n : Nat) (ac : List Nat) :
+    (∀ ops hist, (runOpsC c ops fs hist).1.log = fs.log) ∧
+    (groundedLoop (CfgRA c) (n+1) fs ac).1.log = fs.log ∧
+    (completeAllG (CfgRA c) fs n ac).1.log = fs.log ∧
+    (stableAllG (CfgRA c) fs n ac).1.log = fs.log ∧
+    (∀ useA, (countAllC c fs n ac useA).1.log = fs.log) ∧
+    (∀ heu fuel stable, (ngSearchC c heu fuel fs n ac stable).1.log = fs.log) := by
+  -- predicate: the flag combination stays off and the log stays `fs.log`
+  have st : Stable c (fun fs' : FStore => (c.frontend && fs'.sender) = false ∧ fs'.log = fs.log) :=
+    ⟨fun fs' v lo hi hs => by
+        unfold nodeC; split
+        · exact hs
+        · split
+          · exact hs
+          · exact ⟨hs.1, by simp only [hs.1, Bool.false_eq_true, if_false]; exact hs.2⟩,
+      fun _ _ _ hs => hs, fun _ _ _ hs => hs, fun _ _ _ hs => hs⟩
+  have sim := cfg_sim c z _ st
+  have h : RelP c z (fun fs' : FStore => (c.frontend && fs'.sender) = false ∧ fs'.log = fs.log) fs s := ⟨r, hoff, rfl⟩
+  refine ⟨fun ops hist => (runOpsC_pres st ops fs hist h.2).2, (groundedLoop_sim sim _ _ s ac h).2.2.2,
+    (completeAllG_sim sim _ s n ac h).2.2.2, (stableAllG_sim sim _ s n ac h).2.2.2,
+    fun useA => (countAllC_sim c z _ st _ s n ac useA h).2.2.2,
+    fun heu fuel stable => (ngSearchC_sim st heu fuel _ s n ac stable h).2.2.2⟩
+
+/-! ## (g) path cubes, impacts, imported stores -/
+
+/-- `interpretations`, `passive_var_impact`, `active_var_impact` (and the membership test on
+`var_dependencies` they are made of): same answers for every handle and every vector -/
+theorem cubes_impacts_feature_independent (c : Cfg) (z : Bool) (fs : FStore) (s : Store) (r : Rel c z fs s) :
+    (∀ t goal gv, cubesC fs t goal gv = cubesOf s t goal gv) ∧
+    (∀ v interp, passiveC c fs v interp = passive s v interp) ∧
+    (∀ v interp, activeC c fs v interp = active s v interp) ∧
+    (∀ t v, depsHasC c fs t v = (depsOf s t).contains v) ∧
+    (∀ t, (pathsQ c fs t).1 = paths s t) :=
+  ⟨cubesC_rel r, passiveC_rel r, activeC_rel r, depsHasC_rel r,
+   fun t => (pathsQ_rel (Stable.true c) (⟨r, trivial⟩ : RelP c z (fun _ => True) fs s) t).1⟩
+
+/-- `restrict` for every handle, valid or not, on a store of either origin (`z`) -/
+theorem restrict_feature_independent_total (c : Cfg) (z : Bool) (fs : FStore) (s : Store) (r : Rel c z fs s)
+    (t v : Nat) (b : Bool) :
+    (restrictC c (t+1) fs t v b).2 = (restrictF (t+1) s t v b).2 ∧
+    Rel c z (restrictC c (t+1) fs t v b).1 (restrictF (t+1) s t v b).1 := restrict_rel_total r t v b
+
+/-- **imported stores**: deserialise (`serde(skip)` tables empty), `fix_import`, then any valid
+operation sequence over any valid handles of the imported table. Under every feature set: the
+handles and the node table of the reference run from the bare imported tables; every query on an
+issued handle answers as the reference — except memoised `models` in the exception
+configuration, which is exact (the count at import time = the count now) on imported nodes and
+(0, 0) on nodes created after the import -/
+theorem answers_after_import (c : Cfg) (hv : c.valid) (nodes : Array Node) (uniq : Std.HashMap Node Nat)
+    (w : WF ⟨nodes, uniq, ∅, ∅⟩) (hist : List Nat) (hh : ∀ t ∈ hist, t < nodes.size)
+    (ops : List Op) (hops : opsValid ops hist.length) :
+    let s0 : Store := ⟨nodes, uniq, ∅, ∅⟩
+    let R := runOpsC c ops (fixImportC c (importC nodes uniq)) hist
+    let M := runOps ops s0 hist
+    R.2 = M.2 ∧ R.1.base.nodes = M.1.nodes ∧ Rel c false R.1 M.1 ∧
+    ∀ t, t ∈ M.2 → ∀ memo,
+      (pathsC c R.1 t memo).1 = paths M.1 t ∧
+      maxDepthCfg c R.1 t = (countF M.1 (t+1) t).2.2 ∧
+      (∀ x, x ∈ varDepsC c R.1 t ↔ x ∈ depsOf M.1 t) ∧
+      ((c.exc = false ∨ memo = false) →
+        (modelsC c R.1 t memo).1 = ((countF M.1 (t+1) t).1, (countF M.1 (t+1) t).2.1)) ∧
+      (c.exc = true → 2 ≤ t → t < nodes.size →
+        (modelsC c R.1 t true).1 = ((countF M.1 (t+1) t).1, (countF M.1 (t+1) t).2.1)) ∧
+      (c.exc = true → nodes.size ≤ t → (modelsC c R.1 t true).1 = (0, 0)) := by
+  intro s0 R M
+  have r0 := (fix_import_establishes c nodes uniq w).2
+  have hist0 := HistOK.of_valid s0 hist hh
+  have stE := ExtFrom.stable c nodes
+  have e0 : ExtFrom nodes (fixImportC c (importC nodes uniq)) := ⟨Nat.le_refl _, fun _ _ h => h⟩
+  have ⟨q, rr, ext⟩ := run_relP c false stE ops _ s0 hist _ ⟨r0, e0⟩ hist0 hops
+  have ⟨wM, _, hM⟩ := runOps_refines ops s0 hist _ w hist0 hops
+  refine ⟨q, rr.nodes, rr, ?_⟩
+  intro t ht memo
+  have htM : t < M.1.nodes.size := mem_hist_lt hM t ht
+  have htR : t < R.1.base.nodes.size := by rw [rr.nodes]; exact htM
+  have hnv : naive R.1.base t = naive M.1 t := naive_congr wM.table rr.nodes t htM
+  have ⟨p1, p2, p3, p4, p5⟩ := naive_proj R.1.base t
+  have ⟨m1, m2, m3, m4, m5⟩ := naive_proj M.1 t
+  rw [hnv] at p1 p2 p3 p4 p5
+  have hpaths : paths R.1.base t = paths M.1 t := by
+    apply Prod.ext
+    · rw [← p3, m3]
+    · rw [← p4, m4]
+  refine ⟨?_, ?_, ?_, ?_, ?_, ?_⟩
+  · rw [(pathsC_exact c false R.1 t memo rr.inv htR).1, hpaths]
+  · rw [maxDepthCfg_exact c false R.1 t rr.inv htR, ← p5, m5]
+  · intro x
+    rw [varDepsC_exact c false R.1 t rr.inv htR x]
+    unfold depsOf
+    rw [depsF_ext M.1 R.1.base wM.table (ExtN_of_eq rr.nodes) (t+1) t htM]
+  · intro hex
+    rw [(modelsC_exact c hv false R.1 t memo rr.inv htR hex).1, ← p1, ← p2, m1, m2]
+  · intro he ht2 hk
+    have stS := CntSplit.stable c he nodes.size (naive s0)
+    have sp : CntSplit nodes.size (naive s0) R.1 := runOpsC_pres stS ops _ hist (CntSplit.import c nodes uniq w)
+    rw [((modelsC_split c he false R.1 rr.inv _ _ sp t ht2 htR).2 hk)]
+    -- the tuple computed at import time is the tuple now
+    have hold : naive R.1.base t = naive s0 t := naive_ext s0 R.1.base w.table ext.2 t hk
+    have ⟨o1, o2, _, _, _⟩ := naive_proj s0 t
+    rw [← hold, hnv] at o1 o2
+    rw [← m1, ← m2, ← hold, hnv]
+  · intro he hk
+    have stS := CntSplit.stable c he nodes.size (naive s0)
+    have sp : CntSplit nodes.size (naive s0) R.1 := runOpsC_pres stS ops _ hist (CntSplit.import c nodes uniq w)
+    have h2 : 2 ≤ t := by have := w.len; simp only at this; omega
+    exact (modelsC_split c he false R.1 rr.inv _ _ sp t h2 htR).1 hk
+
+/-- a store imported WITHOUT `fix_import`: without `variablelist` and `adhoccounting` nothing
+needs repair (`Rel` holds, hence everything above applies) … -/
+theorem import_without_fix (c : Cfg) (hv : c.variablelist = false) (ha : c.adhoccounting = false)
+    (nodes : Array Node) (uniq : Std.HashMap Node Nat) (w : WF ⟨nodes, uniq, ∅, ∅⟩) :
+    Rel c false (importC nodes uniq) ⟨nodes, uniq, ∅, ∅⟩ := import_unfixed_rel c hv ha nodes uniq w
+
+/-- … with `variablelist` the dependency table is empty until `fix_import`: the code indexes it
+(`self.var_deps[tree.value()]`, a panic); the model's total lookup takes the shortcut and returns
+the diagram unrestricted. Concretely, on the imported one-variable table, `x0[x0 := ⊤]` comes back
+as handle 2 where the reference answers 1. This is the documented precondition "call `fix_import`
+after deserialising", not an independence failure. -/
+theorem import_without_fix_variablelist :
+    let nodes : Array Node := #[⟨VBOT, 0, 0⟩, ⟨VTOP, 1, 1⟩, ⟨0, 0, 1⟩]
+    ∀ uniq : Std.HashMap Node Nat,
+    (restrictC Cfg.default 3 (importC nodes uniq) 2 0 true).2 = 2 ∧
+    (restrictF 3 ⟨nodes, uniq, ∅, ∅⟩ 2 0 true).2 = 1 := by
+  intro nodes uniq
+  constructor
+  · simp [restrictC, importC, nodes, Cfg.default]
+  · simp [restrictF, nodes, VBOT, VTOP]
+
+/-! ### non-vacuity of (e), (f), (g) -/
+
+/-- the hypothesis `Rel` of the semantics theorems holds, under each cargo feature set, for the
+store built by a six-operation sequence (x0, x1, ¬x1, x0 ∧ ¬x1, x0 ∨ x1, (x0 ∧ ¬x1)[x1 := ⊤]) —
+with and without a sender attached — and that store has inner nodes (the vector `ac` of the
+theorems is unconstrained, e.g. `[5, 6]` with `n = 2`) -/
+theorem semantics_example :
+    let ops : List Op := [.var 0, .var 1, .not 3, .and 2 4, .or 2 3, .restrict 5 1 true]
+    opsValid ops 2 ∧
+    (∀ c, Rel c true (runOpsC c ops (newC c) [0, 1]).1 (runOps ops Store.init [0, 1]).1 ∧
+          Rel c true (runOpsC c ops (newC c) [0, 1]).1.setSender (runOps ops Store.init [0, 1]).1) ∧
+    4 ≤ (runOps ops Store.init [0, 1]).1.nodes.size := by
+  intro ops
+  have hv : opsValid ops 2 :=
+    ⟨by simp [Op.valid, VBOT], by simp [Op.valid, VBOT], by simp [Op.valid], by simp [Op.valid], by simp [Op.valid],
+      by simp [Op.valid], trivial⟩
+  refine ⟨hv, ?_, ?_⟩
+  · intro c
+    have ⟨_, r⟩ := run_rel c true ops (newC c) Store.init [0, 1] _ (Rel.new c) HistOK.init hv
+    exact ⟨r, r.setSender⟩
+  · -- the first two operations already create two nodes; the table only grows
+    have hv2 : opsValid [Op.var 0, .var 1] 2 := ⟨by simp [Op.valid, VBOT], by simp [Op.valid, VBOT], trivial⟩
+    have ⟨w2, _, h2⟩ := runOps_refines [Op.var 0, .var 1] Store.init [0, 1] _ WF_init HistOK.init hv2
+    have ⟨_, e, _⟩ := runOps_refines [Op.not 3, .and 2 4, .or 2 3, .restrict 5 1 true]
+      (runOps [Op.var 0, .var 1] Store.init [0, 1]).1 (runOps [Op.var 0, .var 1] Store.init [0, 1]).2 _ w2 h2
+      ⟨by simp [Op.valid, runOps], by simp [Op.valid, runOps], by simp [Op.valid, runOps], by simp [Op.valid, runOps], trivial⟩
+    have sz : (runOps [Op.var 0, .var 1] Store.init [0, 1]).1.nodes.size = 4 := by
+      simp [runOps, stepOp, mkNode, Store.init]
+    have := e.1
+    rw [sz] at this
+    exact this
+
+/-- the channel on a concrete run: sender attached to a fresh store under the default feature set,
+two variables created — the log is exactly the two new nodes, in order -/
+theorem frontend_example :
+    (runOpsC Cfg.default [.var 0, .var 1] (newC Cfg.default).setSender [0, 1]).1.log = [⟨0, 0, 1⟩, ⟨1, 0, 1⟩] := by
+  have hv2 : opsValid [Op.var 0, .var 1] 2 := ⟨by simp [Op.valid, VBOT], by simp [Op.valid, VBOT], trivial⟩
+  have ⟨_, b, g⟩ := (frontend_channel Cfg.default true (newC Cfg.default) Store.init (Rel.new _) 0 []).1
+    [.var 0, .var 1] [0, 1] _ HistOK.init hv2
+  rw [g]
+  unfold StreamF.created
+  rw [b]
+  simp [runOps, stepOp, mkNode, Store.init, newC, Cfg.default]
+
+/-- `answers_after_import` applies: the one-variable table as an imported store, histories over its
+three handles, e.g. the operations x1, x0 ∧ x1 afterwards -/
+theorem import_example :
+    let s1 := (runOps [.var 0] Store.init [0, 1]).1
+    WF ⟨s1.nodes, s1.uniq, ∅, ∅⟩ ∧ s1.nodes.size = 3 ∧ (∀ t ∈ [0, 1, 2], t < s1.nodes.size) ∧
+    opsValid [.var 1, .and 2 3] [0, 1, 2].length := by
+  intro s1
+  have ⟨w, _, _⟩ := runOps_refines [.var 0] Store.init [0, 1] _ WF_init HistOK.init ⟨by simp [Op.valid, VBOT], trivial⟩
+  have sz : s1.nodes.size = 3 := by simp [s1, runOps, stepOp, mkNode, Store.init]
+  have hs : s1 = ⟨s1.nodes, s1.uniq, ∅, ∅⟩ := by simp [s1, runOps, stepOp, mkNode, Store.init]
+  refine ⟨by rw [← hs]; exact w, sz, ?_, ⟨by simp [Op.valid, VBOT], by simp [Op.valid], trivial⟩⟩
+  intro t ht
+  rw [sz]
+  simp at ht
+  omega
+
+end C12
+
 /-! ## the real tables under every feature set
 
 The count cache and the dependency lists exist only under some feature sets; the audit of the
@@ -294,3 +662,20 @@ theorem memo_audit_sound (nv : Nat) (exc : Bool) (s : Store) (r : MemoCheck.Rows
   MemoCheck.memoCheckF_sound nv exc s r (wfCheck_sound s.nodes hwf) hc
 
 end C12
+
+#print axioms C12.answers_feature_independent
+#print axioms C12.semantics_feature_independent
+#print axioms C12.semantics_keep_rel
+#print axioms C12.cli_sections_feature_independent
+#print axioms C12.semantics_agree
+#print axioms C12.grounded_correct_every_config
+#print axioms C12.sender_irrelevant
+#print axioms C12.frontend_channel
+#print axioms C12.no_sender_no_log
+#print axioms C12.cubes_impacts_feature_independent
+#print axioms C12.answers_after_import
+#print axioms C12.import_without_fix
+#print axioms C12.import_without_fix_variablelist
+#print axioms C12.semantics_example
+#print axioms C12.frontend_example
+#print axioms C12.import_example
